@@ -78,6 +78,18 @@ FRAGMENTS = [
     dict(name="gen_write_after_finish", file="src/client/call.rs", fn="write", nth=2, kind="guard", err="BodyContentAfterFinish",
          subst=[(r"input\.is_empty\(\)", "input_empty"), (r"self\.state\.writer\.is_ended\(\)", "ended")],
          params=[("input_empty", "bool"), ("ended", "bool")], ret="bool", fallback="(negb input_empty) && ended"),
+    # the redirect method table: `let new_method = if status.is_redirect_retaining_status() { .. return Ok(None) .. } else { .. };`
+    # as a function status -> method -> Option<Method> (None = the redirect is not followed)
+    dict(name="gen_redirect_method", file="src/client/flow.rs", fn="as_new_flow", kind="let", var="new_method",
+         subst=[(r"return\s+Ok\(None\)\s*;", "NoneM"), (r"\{\s*method\.clone\(\)\s*\}", "{ SomeM(method) }"),
+                (r"\{\s*Method::GET\s*\}", "{ SomeM(Method::GET) }")],
+         params=[("status", "N"), ("method", "method")], ret="option Request.method",
+         fallback="if gen_is_retaining status then (if gen_need_request_body method then None else if method_eqb method DELETE then None else Some method) "
+                  "else (if method_eqb method GET || method_eqb method HEAD then Some method else Some GET)"),
+    # what counts as a redirect: the `Some(v) => ...` arm of Inner::is_redirect
+    dict(name="gen_is_redirect_status", file="src/client/flow.rs", fn="is_redirect", kind="arm", arm=r"Some\(v\)",
+         subst=[(r"v\.is_redirection\(\)", "(300 <= v && v <= 399)")],
+         params=[("v", "N")], ret="bool", fallback="(N.leb 300 v && N.leb v 399) && negb (N.eqb v 304)"),
     dict(name="gen_direct_overshoot", file="src/client/call.rs", fn="consume_direct_write", kind="guard", err="BodyLargerThanContentLength",
          subst=[], params=[("amount", "N"), ("left", "N")], ret="bool", fallback="N.ltb left amount"),
 ]
@@ -248,10 +260,13 @@ class Parser(object):
             a = self.block_expr()
             self.expect("}")
             self.expect("else")
-            self.expect("{")
-            b = self.block_expr()
-            self.expect("}")
-            return ("(if %s then %s else %s)" % (c[0], a[0], b[0]), a[1])
+            if self.peek() == ("id", "if"):
+                b = self.atom()               # else if ...: a nested conditional without braces of its own
+            else:
+                self.expect("{")
+                b = self.block_expr()
+                self.expect("}")
+            return ("(if %s then %s else %s)" % (c[0], a[0], b[0]), a[1] if a[1] != "?" else b[1])
         if tok == ("id", "matches") and self.peek() == ("op", "!"):
             self.next()
             self.expect("(")
@@ -292,6 +307,13 @@ class Parser(object):
                         self.skip_parens()
                     return (member, "err")
                 raise Unsupported("path %s::%s" % (name, member))
+            if name == "NoneM":
+                return ("(@None Request.method)", "optm")     # (fragments) `return Ok(None)` of a function whose value is an Option<Method>
+            if name == "SomeM":
+                self.expect("(")
+                inner = self.expr()
+                self.expect(")")
+                return ("(Some %s)" % inner[0], "optm")
             if name == "self":
                 return ("self", self.self_ty)
             if name == "true" or name == "false":
@@ -541,19 +563,44 @@ def translate_fn(text, rust_name, coq_name, self_ty, consts, known, opts=None):
     return "\n".join(p.aux + [head]), ret_ty
 
 
-def translate_fragment(text, fr, consts):
+def translate_fragment(text, fr, consts, known=None):
     _sig, body = extract_fn(text, fr["fn"], fr.get("nth", 1))
     if fr["kind"] == "let":
-        m = re.search(r"let\s+(?:mut\s+)?%s(?:\s*:\s*[\w<>]+)?\s*=\s*(?P<e>[^;]*);" % re.escape(fr["var"]), body)
+        m = re.search(r"let\s+(?:mut\s+)?%s(?:\s*:\s*[\w<>]+)?\s*=\s*" % re.escape(fr["var"]), body)
+        if not m:
+            raise Unsupported("fragment not found")
+        # up to the `;` that ends the statement (at brace / parenthesis depth 0; comments skipped)
+        j = m.end()
+        depth = 0
+        while j < len(body):
+            if body.startswith("//", j):
+                j = body.index("\n", j) if "\n" in body[j:] else len(body)
+                continue
+            ch = body[j]
+            if ch in "({[":
+                depth += 1
+            elif ch in ")}]":
+                depth -= 1
+            elif ch == ";" and depth == 0:
+                break
+            j += 1
+        if j >= len(body):
+            raise Unsupported("fragment not terminated")
+        e = body[m.end():j]
+    elif fr["kind"] == "arm":
+        m = re.search(r"%s\s*=>\s*(?P<e>[^,{}]*)," % fr["arm"], body)
+        if not m:
+            raise Unsupported("fragment not found")
+        e = m.group("e")
     else:
         m = re.search(r"if\s+(?P<e>[^{};]*?)\s*\{\s*return\s+Err\(\s*Error::%s\b" % re.escape(fr["err"]), body)
-    if not m:
-        raise Unsupported("fragment not found")
-    e = m.group("e")
+        if not m:
+            raise Unsupported("fragment not found")
+        e = m.group("e")
     e = re.sub(r"\s+as\s+(?:u64|usize)\b", "", e)
     for rx, rep in fr["subst"]:
         e = re.sub(rx, rep, e)
-    p = Parser(tokenize(e), consts, None, {})
+    p = Parser(tokenize(e), consts, None, dict(known or {}))
     p.vars = dict(fr["params"])
     p.params = [n for n, _ in fr["params"]]
     p.assigned = []
@@ -563,8 +610,9 @@ def translate_fragment(text, fr, consts):
     if p.peek()[0] != "eof":
         raise Unsupported("trailing tokens in fragment %s: %r" % (fr["name"], p.peek()))
     used = set(t[1] for t in p.t if t[0] == "id")
-    unknown = [u for u in used if u not in p.vars and u not in ("if", "else", "min", "max", "saturating_sub", "true", "false")
-               and not re.fullmatch(r"[A-Z][A-Z0-9_]*", u)]
+    unknown = [u for u in used if u not in p.vars and u not in ("if", "else", "min", "max", "saturating_sub", "true", "false", "matches", "NoneM", "SomeM",
+                                                                "Method", "Version", "StatusCode", "clone", "as_u16") + tuple(METHODS) + tuple(STATUS)
+               and u not in (known or {}) and not re.fullmatch(r"[A-Z][A-Z0-9_]*", u)]
     if unknown:
         raise Unsupported("fragment %s mentions %s, which is not one of its parameters" % (fr["name"], unknown))
     return out[0]
@@ -606,10 +654,10 @@ def regenerate(repo, out_path):
     frags_missing = {}
     for fr in FRAGMENTS:
         sig = " ".join("(%s : %s)" % (n, t) for n, t in fr["params"])
-        where = "%s :: fn %s :: %s" % (fr["file"], fr["fn"], ("let " + fr["var"]) if fr["kind"] == "let" else ("guard of Error::" + fr["err"]))
+        where = "%s :: fn %s :: %s" % (fr["file"], fr["fn"], ("let " + fr["var"]) if fr["kind"] == "let" else ("match arm " + fr["arm"]) if fr["kind"] == "arm" else ("guard of Error::" + fr["err"]))
         try:
             text = open(os.path.join(repo, fr["file"])).read()
-            e = translate_fragment(text, fr, constants_of(text))
+            e = translate_fragment(text, fr, constants_of(text), known)
             chunks.append("(* %s *)\nDefinition %s %s : %s :=\n  %s.\n" % (where, fr["name"], sig, fr["ret"], e))
             frags.append(fr["name"])
         except (Unsupported, OSError, ValueError, KeyError, IndexError, AttributeError) as ex:
